@@ -179,7 +179,7 @@ class AllGen:
         # ---- strings
         S0 = ["", "abc", "  hello  ", "\tTab\n", "Stra\u00dfe", "\u01c6", "\u0130stanbul", "\u00a0x\u2003", "\u03a3\u0391\u03a3", "\u03c3\u03c2",
               "\ufb01n", "MiXeD 123", "\u3000wide\u3000", "e\u0301", "\U0001F600 ok ", "a,b , c", "\u1e9e", "\u0149", "  ", "x\u200by",
-              "\u0085nel\u0085", "\u1680og\u1680", "\u0345", "\u03b0", "Ab", "aB", "  Q q ", "str"]
+              "\u0085nel\u0085", "\u1680og\u1680", "\u0345", "\u03b0", "Ab", "aB", "  Q q ", "str", "{}", "a{}b", "m", "km", ", ", "k"]
         S0 += [a + b for a, b in [(rng.choice(S0), rng.choice(S0)) for _ in range(10)]]
         self.S0 = list(dict.fromkeys(S0))
         self._query_str([(f, s) for f in STRFN for s in self.S0])
@@ -237,7 +237,8 @@ class AllGen:
     LAMS = ["x => x", "x => x + 1", "(x, y) => x * y", "(x, y?) => x", "(...r) => r", "(a, ...r) => [a, ...r]", "() => 1",
             "x => y => x + y", "x => x via (y => y * 2)", "n => if n > 0 then n else -n", "x => {a: x, \"b c\": [x]}",
             "x => x.a[0]", "(x) => do { y = x + 1\n return y }", "x => sin(x) ^ 2", "s => uppercase(s) + \"!\"", "x => -x!",
-            "f => f(f)", "x => x ?? 0", "x => not x and true", "(x, i) => x .== i"]
+            "f => f(f)", "x => x ?? 0", "x => not x and true", "(x, i) => x .== i",
+            "(x, i) => i", "(a, x) => a + x", "x => x > 1", "x => \"k\"", "x => x(x)"]
     FMTS = ["{}", "a{}b{}", "{{}}", "{{{}}}x{y}", "}{", "{", "}", "{}{}{}", "\u00e9{}\u00fc", "{}}", "{{}}x{{}{}}y{", "no braces", "",
             "{}} {{}", "{ }", "{{", "}}", "\U0001F600{}\U0001F600", "{}{", "}{}", "{x}{}"]
 
@@ -261,6 +262,26 @@ class AllGen:
         if k == 10:
             return "[...%s, 1]" % self.strexpr()
         return "[]"
+
+    def direct_arg(self, bname):
+        """an argument for the DIRECT stream: no spreads (the vector is a list literal), oracle functions only on level-0 values"""
+        r = self.rng
+        k = r.below(10)
+        if k <= 2:
+            return r.choice(self.L0).src
+        if k == 3:
+            return self.sq(r.choice(self.S0[4:20] + ["{}", "a{}b", "str", "Ab"]))
+        if k == 4:
+            return "[%s, %s]" % (r.choice(self.L0).src, r.choice(self.L0).src)
+        if k == 5:
+            return r.choice(["[]", "[\"Ab\", \"aB\"]", "[[1], [2, 3]]", "{a: 1}", "{}", "[true, false]"])
+        if k == 6:
+            return r.choice(["x => x", "(x, i) => i", "(a, x) => a + x", "x => x > 1", "x => \"k\"", "() => 1", "x => x(x)"])
+        if k == 7:
+            return r.choice(["true", "false", "null"])
+        if k == 8:
+            return r.choice(["abs", "typeof", "len", "uppercase", "to_string"])
+        return r.choice(["1", "2", "0", "10", "100", "\"m\"", "\"km\"", "\", \""])     # numbers of level 0 only
 
     def programs(self, n):
         r = self.rng
@@ -496,5 +517,46 @@ def run_all_stream(h, rng, quick, res, cli=None, tag="all"):
             ev["PRINT"]["real_binary_stderr_equal"] = (p.returncode == 0 and len(lines) == len(exp) and not bad)
         finally:
             _os.remove(path)
-    res.coverage["traces_validated_against_impl"] = res.coverage.get("traces_validated_against_impl", 0) + agree + pag
+    # ---- DIRECT: BuiltInFunction::call WITHOUT the arity check (every built-in x argument vectors of length
+    #      0 .. max arity + 1): the model's explicit Panic arms and the order of args[i] / type checks in each arm
+    dump = c.harness_oneshot(h, "dump-builtins").strip().split("\n")
+    dcases = []
+    for ln in dump:
+        nm, kind, a, b = ln.split("\t")[:4]
+        hi = int(a) if kind != "between" else int(b)
+        hi = max(hi, 1) + 1
+        for n in range(0, hi + 1):
+            for _ in range(1 if n == 0 else (3 if quick else 12)):
+                dcases.append((nm, "[%s]" % ", ".join(g.direct_arg(nm) for _ in range(n))))
+    ddefs = "Definition INP : list (string * value) := %s.\n%s" % (inp, g.coq_tables())
+    dcoq, _ = parse_to_coq(h, [s_ for _, s_ in dcases])
+    didx = [i for i, p in enumerate(dcoq) if p is not None]
+    douts = c.coq_eval_batch(ALL_REQUIRES, ddefs, ["(show_direct T INP B_%s %s)" % (dcases[i][0], dcoq[i]) for i in didx],
+                             tag + "d", shard=120)
+    dmodel = [None] * len(dcases)
+    for i, o in zip(didx, douts):
+        dmodel[i] = o
+    dimpl = c.harness_lines_resilient(h, "all-direct", ["%s\t%s\t%s" % (nm, c.hexs(s_), c.hexs(DEFAULT_INPUTS_JSON)) for nm, s_ in dcases])
+    dag, dmis, dmiss, dpanic, dkinds = 0, [], 0, 0, {}
+    for (nm, s_), a, b in zip(dcases, dimpl, dmodel):
+        if b is None:
+            continue
+        a = "PANIC" if a.startswith("PANIC") else a
+        if nm == "time_now" and a.startswith("OK:N") and b.startswith("OK:N"):
+            a = b                      # the clock moved on between the two runs
+        if MISS_STR in b or MISS_NUM in b:
+            dmiss += 1
+        elif a == b:
+            dag += 1
+            dpanic += a == "PANIC"
+            k = a.split(":")[0]
+            dkinds[k] = dkinds.get(k, 0) + 1
+        else:
+            dmis.append(("%s %s" % (nm, s_), a, b))
+    if dmis:
+        res.tie_broken("correspondence C01/DIRECT: BuiltInFunction::call without the arity check — model and implementation "
+                       "disagree on %d of %d argument vectors" % (len(dmis), len(dcases)), "first: %r\nimpl : %s\nmodel: %s" % dmis[0])
+    ev["DIRECT"] = {"argument_vectors": len(dcases), "agree": dag, "mismatches": len(dmis), "oracle_table_miss_skipped": dmiss,
+                    "agreeing_outcomes": dkinds, "panics_agreed(model Panic arm = Rust panic)": dpanic}
+    res.coverage["traces_validated_against_impl"] = res.coverage.get("traces_validated_against_impl", 0) + agree + pag + dag
     return ev
